@@ -203,7 +203,10 @@ func (prom *Prometheus) StartWorkers() {
 }
 
 func (prom *Prometheus) doRequest(ctx context.Context, method, path string, args url.Values) (*http.Response, error) {
-	u, _ := url.Parse(prom.unsafeURI)
+	u, err := url.Parse(prom.unsafeURI)
+	if err != nil {
+		return nil, err
+	}
 	u.Path = strings.TrimSuffix(u.Path, "/")
 
 	uri, err := url.JoinPath(u.String(), path)
